@@ -233,12 +233,117 @@ def add_true_pred(rng, text):
     return ''.join(parts)
 
 
+ATTR_STEPS = ['@%s', '@%s', 'attribute::%s', '@*', 'attribute::text()', 'attribute::comment()', 'attribute::node()',
+              '@x:%s']
+AFTER_ATTR = ['%s', 'text()', '@%s', 'self::%s', '.', 'descendant::%s', 'comment()', '*', 'node()']
+
+
+def rand_attrshape(rng, doc):
+    """a location path with an attribute step where paths rarely have one: before the last step (`a/@b/c`), with a
+    node-type test (`a/attribute::text()`), after a KMP fragment (`descendant::a/b/@n`) — the shapes behind the
+    fixed findings C17-simple-interior-attribute and C17-simple-attribute-false; names and attributes are those
+    of a random chain of `doc`, so the element steps usually match"""
+    chain = [doc]
+    while 'e' in chain[-1] and [k for k in chain[-1].get('k', []) if 'e' in k] and rng.random() < 0.8:
+        chain.append(rng.choice([k for k in chain[-1]['k'] if 'e' in k]))
+    owner = chain[-1]
+    names = [n['e'][1] for n in chain[1:]] or [rng.choice(G.NAMES)]
+    r = rng.random()
+    if r < 0.4:
+        head = '/'.join(names)
+    elif r < 0.7:
+        head = rng.choice(['descendant::', '//', 'descendant-or-self::']) + '/'.join(names[-2:])
+    else:
+        k = rng.randrange(len(names))
+        head = '/'.join(names[:k] + [rng.choice(['descendant::', 'descendant-or-self::']) + names[k]] + names[k + 1:])
+    if rng.random() < 0.15:
+        head = 'self::%s/%s' % (doc['e'][1], head)
+    attrs = [a[1] for a in owner.get('a', []) if not a[0]] or list(G.ATTR_NAMES)
+    step = rng.choice(ATTR_STEPS)
+    if '%s' in step:
+        step = step % (rng.choice(attrs) if rng.random() < 0.8 else rng.choice(list(G.ATTR_NAMES)))
+    text = head + '/' + step
+    if rng.random() < 0.45:
+        after = rng.choice(AFTER_ATTR)
+        if '%s' in after:
+            after = after % rng.choice(list(G.NAMES) + attrs)
+        text += '/' + after
+    return text
+
+
+SS_AXES = ['', 'child::', '@', 'attribute::', 'self::', 'descendant::', 'descendant-or-self::', '//']
+SS_ELEM_TESTS = ['*', 'text()', 'node()', 'comment()', 'processing-instruction()', "processing-instruction('php')",
+                 'processing-instruction("py")', "processing-instruction('x')", 'x:*', 'y:*']
+SS_ATTR_TESTS = ['*', 'x:*', 'y:*', 'text()', 'node()', 'comment()', 'processing-instruction()']
+
+
+def rand_singlestep(rng, doc):
+    """ONE location step — SingleStepStrategy's domain — over every axis spelling and every node test (names and
+    namespaced names of the document, wildcards, the four node-type tests, processing-instruction targets; on the
+    attribute axis the attribute names of the document, `@*`, `@x:*` and node-type tests), with 0-2 predicates,
+    positional ones included"""
+    nodes = []
+
+    def walk(n):
+        nodes.append(n)
+        for k in n.get('k', []):
+            walk(k)
+    walk(doc)
+    elems = [n for n in nodes if 'e' in n]
+    ax = rng.choice(SS_AXES)
+    attr_axis = ax in ('@', 'attribute::')
+    r = rng.random()
+    if attr_axis:
+        owned = [a for n in elems for a in n.get('a', [])]
+        if r < 0.5 and owned:
+            a = rng.choice(owned)
+            test = a[1] if not a[0] else '%s:%s' % ('x' if a[0] == 'urn:x' else 'y', a[1])
+        elif r < 0.6:
+            test = rng.choice(list(G.ATTR_NAMES))
+        else:
+            test = rng.choice(SS_ATTR_TESTS)
+    else:
+        if r < 0.45 and elems:
+            q = rng.choice(elems)['e']
+            test = q[1] if not q[0] or rng.random() < 0.3 else '%s:%s' % ('x' if q[0] == 'urn:x' else 'y', q[1])
+        elif r < 0.55:
+            test = rng.choice(list(G.NAMES))
+        else:
+            test = rng.choice(SS_ELEM_TESTS)
+    step = ax + test
+    k = 0
+    while rng.random() < 0.4 and k < 2:
+        if rng.random() < 0.5:
+            step += '[%s]' % rng.choice(['1', '2', '3', '1', '2', '1.0', '2 ', '0', '2.5', 'true()', '@n', '1=1', '$n'])
+        else:
+            step += '[%s]' % G.rand_pred(rng, G.FULL, 2, not attr_axis)
+        k += 1
+    return step
+
+
 def gen_case(rng):
     doc = G.rand_doc(rng, rng.choice([5, 7, 9, 12]), deep=rng.random() < 0.5)
+    if rng.random() < 0.08:
+        case = {'doc': doc, 'kind': 'strategies', 'path': rand_singlestep(rng, doc), 'singlestep': True}
+        if rng.random() < 0.15:
+            case['ns_events'] = True
+        return case
     r = rng.random()
     case = {'doc': doc}
     if rng.random() < 0.15:
         case['ns_events'] = True
+    if rng.random() < 0.08:
+        text = rand_attrshape(rng, doc)
+        if rng.random() < 0.3:
+            # in a union a `False` from one operand keeps the others from matching the event
+            parts = [text, rng.choice(['*', './/*', G.rand_locpath_for(rng, doc, G.SIMPLE)])]
+            if rng.random() < 0.5:
+                parts.reverse()
+            case.update(kind='union', path='|'.join(parts), parts=parts)
+        else:
+            case.update(kind='strategies', path=text)
+        case['attrshape'] = True
+        return case
     if rng.random() < 0.14:
         # aimed at SimplePathStrategy's hand-over between fragments and its KMP fall-back
         doc, text = G.rand_fragcase(rng)
@@ -361,6 +466,10 @@ def frag_stats(text, doc, res):
             res.count('simple:multi-fragment')
         if any(f[2] is not None for f in fr):
             res.count('simple:attr-end')
+            if len(ne) >= 2 or (fr and not fr[0][0]):
+                res.count('simple:attr-end-after-kmp-fragment')
+            if type(fr[-1][2]).__name__ != 'LocalNameTest':
+                res.count('simple:attr-end-node-type-test')
         if any(st[0] is P.SELF for st in p[1:]):
             res.count('simple:inner-self')
         if any(x > 0 for f in fr for x in f[1]):
@@ -384,6 +493,25 @@ def check_cases(cases, res):
     for i, case in enumerate(cases):
         res.evaluations += 1
         res.count('kind:' + case['kind'])
+        if case.get('singlestep'):
+            res.count('gen:singlestep')
+            try:
+                st = P.PathParser(case['path']).parse()[0]
+                if len(st) == 1:
+                    res.count('single:axis=%s' % st[0][0])
+                    res.count('single:test=%s%s' % (type(st[0][1]).__name__,
+                                                     ':' + str(getattr(st[0][1], 'principal_type', ''))
+                                                     if hasattr(st[0][1], 'principal_type') else ''))
+                    res.count('single:preds=%d' % len(st[0][2]))
+            except Exception as e:  # noqa
+                res.count('single:parse-error:%s' % type(e).__name__)
+        if case.get('attrshape'):
+            res.count('gen:attrshape')
+            try:
+                if any(any(st[0] is P.ATTRIBUTE for st in p[:-1]) for p in P.PathParser(case['path']).parse()):
+                    res.count('gen:attrshape:interior-attribute-step')
+            except Exception:  # noqa
+                pass
         f = oracle_case(case)
         if f:
             res.failures.append(f)
@@ -410,6 +538,12 @@ def check_cases(cases, res):
                 ask('frags', i, proto.line(Atom('C17'), Atom('frags'), text), fr)
             sc = real_scope(text)
             ask('inscope', i, proto.line(Atom('C17'), Atom('inscope'), text), sc)
+            # every path SimplePathStrategy supports lies in the scope of simple_eq_generic (the full statement)
+            fs = [Atom('ok')] + [B(True) if P.SimplePathStrategy.supports(p) else N for p in paths]
+            ask('fullscope', i, proto.line(Atom('C17'), Atom('fullscope'), text), fs)
+            for x in fs[1:]:
+                if x is not N:
+                    res.count('simple:in-full-theorem-scope')
             for x in sc[1:]:
                 if isinstance(x, list):
                     res.count('simple:in-fragment-theorem-scope' if x[:2] == [B(True), B(True)]
